@@ -32,7 +32,7 @@ ASSUMPTIONS = [
     "valid stacks: subset entries address existing items of the layer below (negative entries allowed), concats "
     "non-empty with finite parts, parts of a balanced concat non-empty",
     "getall-vs-getitem agreement is claimed for stacks without a balanced concat (KDConcatDataset._call_getall "
-    "ignores balanced_sampling: recorded as a proposed finding, probe with C02_PROBE_BALANCED_GETALL=1) and for "
+    "ignores balanced_sampling: a recorded known finding, reproduced on every run by corpus/C02/known_balanced_getall.json) and for "
     "concat parts whose getall returns a list (the code asserts it)",
     "balanced concat: non-negative indices (the spec is silent on negative ones; the model mirrors the code)",
     "attribute delegation is exercised for root_dataset, getshape_x/getdim_x, one plain attribute and dispose only",
